@@ -428,6 +428,21 @@ def run(ctx):
         vector_table = ev.table.width == 3 and not all(const_int(x_) is not None for r_ in rows for x_ in r_[:3])
         index3 = ev.table.width == 3 and not vector_table
         triples, badrow = set(), None
+        # the metric tensor of the cell itself (refs/cell.py): a table may be ordered by the squared length v.G.v just as well
+        from refs import cell as RC
+        _uc, cenv = N.cell_env(cell_name=cell.base)
+        Gref = [[N.ref(RC.G[i_][j_], cenv) for j_ in range(3)] for i_ in range(3)]
+
+        def metric_length_sq(ints_):
+            return sum((Rat.const(ints_[i_] * ints_[j_]) * Gref[i_][j_] for i_ in range(3) for j_ in range(3)), Rat.const(0))
+
+        def is_metric_key(key_, ints_):
+            """the key is v.G.v or its square root, G the metric tensor of the input cell"""
+            try:
+                q_ = metric_length_sq(ints_)
+                return N.rat_equal(key_, q_) or N.rat_equal(key_ * key_, q_) and not any(a_.startswith("norm#") for a_ in key_.atoms())
+            except AnalysisError:
+                return False
         if vector_table:
             A_ = [[Rat.atom("A[%d,%d]" % (r_, c_)) for c_ in range(3)] for r_ in range(3)]
             zero_env = {"A[%d,%d]" % (r_, c_): Rat.const(0) for r_ in range(3) for c_ in range(3)}
@@ -453,7 +468,7 @@ def run(ctx):
                     if ints == [0, 0, 0]:
                         okr = length.is_zero() or (tag in ev.norm_of and veq(ev.norm_of[tag], want))
                     else:
-                        okr = tag in ev.norm_of and veq(ev.norm_of[tag], want)
+                        okr = (tag in ev.norm_of and veq(ev.norm_of[tag], want)) or is_metric_key(length, ints)
             if not okr and badrow is None:
                 badrow = [N.short(x, 40) for x in r]
             if all(i is not None for i in ints):
